@@ -134,7 +134,16 @@ def price_world(chk, rng, wi):
     wid = "world%d" % wi
     subs = []
     keys = list(declared)
-    for j in range(30):
+    # a few rate objects that live for the whole world and are applied
+    # repeatedly, in both directions and to matching and non-matching prices
+    shared = []
+    for si in range(3):
+        a_, b_ = rng.sample(list(CURS), 2)
+        amt = F(rng.randint(1, 10 ** 7), 10 ** rng.randint(1, 6))
+        pre.append({"id": "$x%d" % si,
+                    "e": ["c", XR, [U(a_), ["i", 1], U(b_), num(amt)]]})
+        shared.append((a_, b_, amt, "$x%d" % si))
+    for j in range(40):
         if not keys:
             break
         r = rng.random()
@@ -164,6 +173,10 @@ def price_world(chk, rng, wi):
                     a = cur
                     b = rng.choice([c for c in CURS if c != cur])
                 xexpr = ["c", XR, [U(a), ["i", 1], U(b), num(rate_amt)]]
+            if rng.random() < 0.6:
+                cand = [s_ for s_ in shared if cur in s_[:2]] or shared
+                a, b, rate_amt, var = rng.choice(cand)
+                xexpr = V(var)
         e = {"mul": OP("*", V("p"), V("x")), "rmul": OP("*", V("x"), V("p")),
              "div": OP("/", V("p"), V("x"))}[form]
         steps = [{"id": "x", "k": "x", "e": xexpr},
